@@ -234,6 +234,21 @@ example : Fresh { fileId := 1 } exLayout ∧ (lexRun { fileId := 1 } exLayout).a
   refine ⟨?_, by decide, by decide, by decide, by decide⟩
   simp [exLayout, Fresh, used, lexStep, Lex.save, lineMod, NV.Gen.C18.shortBits, u16]
 
+/-- `file_roundtrip` covers the lines that END a segment (the quantifier is over every prefix, so also the position
+right in front of an end of file): the included file 7 has two lines and NO newline at its end, the lexer stands on
+its last line — absolute line 4, which is exactly where the segment `(2 lines, id 2)` ends — and the decoder returns
+(id 2, line 2).  (A decoder that hands the boundary line to the next segment — `<` for `<=` in the first pass —
+fails here; on the real code this is what the `tra` comparison over ALL absolute lines and oracle J6 check.) -/
+example :
+    let p : List LexEvN := [.nl, .incl 7, .nl]
+    let q : List LexEvN := [.eof, .nl]
+    (lexRunN (initN 5) p).lex.abs = 4 ∧ (lexFinish (lexRunN (initN 5) (p ++ q)).lex).fi = [⟨2, 1⟩, ⟨2, 2⟩, ⟨2, 1⟩] ∧
+    translateAbs 4 (lexFinish (lexRunN (initN 5) (p ++ q)).lex).fi = some (2, 2) ∧
+    translateAbs 2 (lexFinish (lexRunN (initN 5) (p ++ q)).lex).fi = some (1, 2) ∧
+    translateAbs 6 (lexFinish (lexRunN (initN 5) (p ++ q)).lex).fi = some (1, 4) ∧
+    translateAbs 7 (lexFinish (lexRunN (initN 5) (p ++ q)).lex).fi = none := by
+  decide
+
 /-! ## trace_order -/
 
 /-- the trace entry the specification expects for an active frame -/
